@@ -96,6 +96,8 @@ def run_case(case):
             viols.append({"sig": sig, "msg": msg, "detail": {k: v for k, v in case.items() if k != "id"}})
 
     def close(a, b, rt=1e-9):
+        if not np.isfinite(float(b)):
+            return float(a) == float(b)
         return abs(float(a) - float(b)) <= rt * (1 + abs(float(b)))
 
     keys = [jr.PRNGKey(100 * seed + i) for i in (1, 2, 3)]
